@@ -56,6 +56,14 @@ type FuncSpec struct {
 	Line     string
 	Inline   bool
 	NoPanicOnly bool
+	GhostLocals []GhostLocal
+	CutAfter    []string // "NAME#k": paths end after this call (only the prefix is under contract)
+}
+
+type GhostLocal struct {
+	Name string
+	Type ast.Expr
+	Init Clause
 }
 
 type SpecFun struct {
@@ -245,6 +253,40 @@ func (cs *Contracts) parseFile(fset *token.FileSet, f *ast.File, pkgPath string)
 				continue
 			}
 			cur.Ghosts = append(cur.Ghosts, ps...)
+		case "ghostlocal":
+			// ghostlocal name type = init
+			if cur == nil {
+				continue
+			}
+			eqi := strings.Index(rest, "=")
+			if eqi < 0 {
+				cs.errf(loc, "expected 'ghostlocal name type = init'")
+				continue
+			}
+			ps, err := parseParams(strings.TrimSpace(rest[:eqi]))
+			if err != nil || len(ps) != 1 {
+				cs.errf(loc, "bad ghostlocal declaration %q", rest)
+				continue
+			}
+			c, ok := mkClause(strings.TrimSpace(rest[eqi+1:]), loc)
+			if !ok {
+				continue
+			}
+			cur.GhostLocals = append(cur.GhostLocals, GhostLocal{Name: ps[0].Name, Type: ps[0].Type, Init: c})
+		case "cutafter":
+			// cutafter call NAME#k
+			if cur == nil {
+				continue
+			}
+			f := strings.Fields(rest)
+			if len(f) != 2 || f[0] != "call" {
+				cs.errf(loc, "expected 'cutafter call NAME#k'")
+				continue
+			}
+			if !strings.Contains(f[1], "#") {
+				f[1] += "#0"
+			}
+			cur.CutAfter = append(cur.CutAfter, f[1])
 		case "requires", "ensures":
 			if cur == nil {
 				cs.errf(loc, "%s outside a function block", kw)
